@@ -574,6 +574,13 @@ func (r *RegisteredDecoys) TrackIfNotExists(d *DecoyRegistration) (bool, error) 
 	return false, nil
 }
 
+// timeoutKey returns the index of a registration's expiry record. Registrations are identified by
+// their phantom address and transport identifier, so the expiry record must be too - otherwise one
+// shared secret registered with two transports on the same phantom shares (and loses) a record.
+func timeoutKey(phantomAddr, identifier string) string {
+	return phantomAddr + "|" + identifier
+}
+
 // For use inside of this struct (so no deadlocks on struct mutex)
 func (r *RegisteredDecoys) track(d *DecoyRegistration) error {
 
@@ -610,7 +617,7 @@ func (r *RegisteredDecoys) track(d *DecoyRegistration) error {
 		regID:            d.IDString(),
 		status:           regStatusUnused,
 	}
-	r.decoysTimeouts[d.IDString()+phantomAddr] = newTimeout
+	r.decoysTimeouts[timeoutKey(phantomAddr, identifier)] = newTimeout
 
 	return nil
 }
@@ -651,8 +658,13 @@ func (r *RegisteredDecoys) markActive(d *DecoyRegistration) {
 	r.m.Lock()
 	defer r.m.Unlock()
 
+	t, ok := r.transports[d.Transport]
+	if !ok {
+		return
+	}
+
 	phantomAddr := d.PhantomIp.String()
-	if regTimeout, ok := r.decoysTimeouts[d.IDString()+phantomAddr]; ok {
+	if regTimeout, ok := r.decoysTimeouts[timeoutKey(phantomAddr, t.GetIdentifier(d))]; ok {
 		regTimeout.status = regStatusUsed
 
 		// Since we update the applicable timeout here, we should update that
